@@ -4,6 +4,7 @@ import Ivy.Drv.Pump
 import Ivy.Drv.Loop
 import Ivy.Drv.Select
 import Ivy.Drv.Inotify
+import Ivy.Drv.Popen
 
 def main (args : List String) : IO UInt32 := do
   match args with
@@ -13,4 +14,5 @@ def main (args : List String) : IO UInt32 := do
   | ["loop"] => Ivy.Drv.Loop.run; return 0
   | ["select"] => Ivy.Drv.Select.run; return 0
   | ["inotify"] => Ivy.Drv.Inotify.run; return 0
+  | ["popen"] => Ivy.Drv.Popen.run; return 0
   | _ => IO.eprintln "usage: ivyreplay <component>"; return 2
